@@ -236,6 +236,20 @@ def run(m: Model, r: Report, tier: str) -> None:
                     "whose _missing_ hook replaces values outside its table: the transport does not get the numeric setting the URI carries", loc=c.loc)
     if n_typed < 8:
         raise AnalysisError(f"only {n_typed} typed auto_int fields found in the transport configs")
+    # every integer setting of a transport is read with the base-0 parser: a field typed int that is left out of the validator only accepts decimal text
+    n_int = 0
+    for c in m.classes.values():
+        if not c.module.name.startswith("gallia.transports.") or "auto_int" not in c.methods:
+            continue
+        ai_ = auto_int_fields(m, c)
+        for fname, ann_ in c.class_annots.items():
+            if ast.unparse(ann_).replace(" ", "") not in ("int", "int|None", "None|int", "Optional[int]"):
+                continue
+            n_int += 1
+            r.check(fname in ai_, "R4", f"{c.qualname}.{fname}#base-0", f"the integer setting {fname} is not in the auto_int validator of {c.name} ({sorted(ai_)}): "
+                    f"`{fname}=0x10` in a target URI is rejected while the address fields of the same URI accept hex / octal / binary", loc=c.loc)
+    if n_int < 10:
+        raise AnalysisError(f"only {n_int} integer settings found in the transport configs")
 
     # ---------------------------------------------------------------- R5
     un = m.require_function(f"{UTILS}.unravel")
